@@ -133,6 +133,23 @@ NAux(sk, kk, e, R, rest) ==
 RECURSIVE DrainAux(_, _, _, _)
 DrainAux(sk, kk, e, R) == LET r == SomeAux(sk, kk, e, R) IN IF r.rc < 0 THEN r ELSE DrainAux(sk, kk, r.e, R)
 
+(* plumbing with a chunk-style source that offers a scratch buffer of R octets through the getbuffer extension (the sink has
+   none): each step reads at most R octets with ONE driver call into the scratch buffer and puts all of them to the sink.
+   An interruption of the source is returned to the caller; a sink reporting "no memory" makes the counted and the
+   draining loop try again. *)
+ENOMEM == -12
+ViaSource(kk, e, R, n) ==
+    LET m == IF n = 0 \/ R < n THEN R ELSE n
+        g == SrcChunkCall(e, m)
+    IN IF g.rc < 0 THEN Ret(g.rc, g.e) ELSE PutChunk(kk, g.e, Tokens(e.pos, g.rc))
+RECURSIVE NExt(_, _, _, _, _)
+NExt(kk, e, R, n, rest) ==
+    IF rest = 0 THEN Ret(n, e)
+    ELSE LET r == ViaSource(kk, e, R, rest)
+         IN IF r.rc = ENOMEM THEN NExt(kk, r.e, R, n, rest) ELSE IF r.rc < 0 THEN r ELSE NExt(kk, r.e, R, n, rest - r.rc)
+RECURSIVE DrainExt(_, _, _)
+DrainExt(kk, e, R) == LET r == ViaSource(kk, e, R, 0) IN IF r.rc < 0 /\ r.rc # ENOMEM THEN r ELSE DrainExt(kk, r.e, R)
+
 ---------------------------------------------------------------------------
 (* observations
      get*  : rc srcpos  dest[1..N] (170 where nothing was placed)
@@ -159,13 +176,19 @@ Result(api, sk, kk, n, L, R, ss, ks) ==
          [] api \in {"ncbc", "nsts"} -> PlumbObs(NCbc(sk, kk, e, n, 0))
          [] api \in {"dcbc", "dsts"} -> PlumbObs(DrainCbc(sk, kk, e))
          \* (R > 10 encodes a designated region of R - 10 octets that starts 2 octets into the auxiliary block)
+         \* the same four calls when the (chunk-style) source offers a scratch buffer of R octets: "sstx", "astx", "nstx", "dstx"
+         [] api = "sstx" -> PlumbObs(ViaSource(kk, e, R, 0))
+         [] api = "astx" -> PlumbObs(ViaSource(kk, e, R, n))
+         [] api = "nstx" -> PlumbObs(NExt(kk, e, R, n, n))
+         [] api = "dstx" -> PlumbObs(DrainExt(kk, e, R))
          [] api = "someaux" -> PlumbObs(SomeAux(sk, kk, e, R % 10))
          [] api = "amaux" -> PlumbObs(SomeAux(sk, kk, e, MinOf(R % 10, n)))
          [] api = "naux" -> LET r == NAux(sk, kk, e, R, n) IN PlumbObs(IF r.rc < 0 THEN r ELSE Ret(n, r.e))
          [] OTHER -> PlumbObs(DrainAux(sk, kk, e, R))     \* "daux"
 
 ---------------------------------------------------------------------------
-PlApis == {"cbc", "ncbc", "dcbc", "someaux", "amaux", "naux", "daux", "ssts", "asts", "nsts", "dsts"}
+ExtApis == {"sstx", "astx", "nstx", "dstx"}
+PlApis == {"cbc", "ncbc", "dcbc", "someaux", "amaux", "naux", "daux", "ssts", "asts", "nsts", "dsts"} \cup ExtApis
 (* C17 on the model: evaluated per case *)
 IsPrefixOfStream(s) == \A i \in 1..Len(s) : s[i] = Tok(i)
 CaseOK(api, sk, kk, n, L, R, ss, ks) ==
@@ -187,9 +210,9 @@ CaseOK(api, sk, kk, n, L, R, ss, ks) ==
          [] api \in PlApis ->
               LET got == Drop(o, 3)
               IN /\ IsPrefixOfStream(got) /\ Len(got) <= o[2]
-                 /\ (api \in {"ncbc", "naux", "nsts"} /\ rc >= 0 => rc = n /\ Len(got) = n /\ o[2] = n)
-                 /\ (api \in {"amaux", "asts"} /\ rc >= 0 => Len(got) <= n /\ rc = Len(got))
-                 /\ (api \in {"dcbc", "daux", "dsts"} => rc < 0 /\ (rc = ENODATA => Len(got) = L))
+                 /\ (api \in {"ncbc", "naux", "nsts", "nstx"} /\ rc >= 0 => rc = n /\ Len(got) = n /\ o[2] = n)
+                 /\ (api \in {"amaux", "asts", "astx"} /\ rc >= 0 => Len(got) <= n /\ rc = Len(got))
+                 /\ (api \in {"dcbc", "daux", "dsts", "dstx"} => rc < 0 /\ (rc = ENODATA => Len(got) = L))
          [] OTHER -> TRUE
 
 ---------------------------------------------------------------------------
@@ -215,7 +238,8 @@ Next == /\ phase[1] = "b" /\ ev' = Boot
                        ss \in Scripts(PBeh, MaxPScript), ks \in Scripts(PBeh, MaxKScript) :
                        /\ (api \in {"cbc", "ncbc", "dcbc", "ssts", "asts", "nsts", "dsts"} => R = 1)
                        /\ (api \notin {"someaux", "amaux"} => R < 10)
-                       /\ (api \in {"cbc", "dcbc", "someaux", "daux", "ssts", "dsts"} => n = 1)
+                       /\ (api \in ExtApis => k = 2)                                       \* chunk-style sources only
+                       /\ (api \in {"cbc", "dcbc", "someaux", "daux", "ssts", "dsts", "sstx", "dstx"} => n = 1)
                        /\ phase' = <<"c", api, k, kk, n, L, R, ss, ks>>
 Spec == Init /\ [][Next]_<<vars, ev>>
 
